@@ -4,6 +4,9 @@ import Mathlib.Algebra.Order.Floor.Ring
 import Mathlib.Tactic.Linarith
 import Mathlib.Tactic.FieldSimp
 import Mathlib.Tactic.Ring
+import Mathlib.Tactic.Positivity
+import Mathlib.Tactic.NormNum
+import Mathlib.Algebra.Order.Ring.Abs
 /-! # C20 — image stacks survive save/load, and rasterised trees match their geometry (PARTIAL)
 
 Theorems about the bookkeeping models of `Model/Images.lean`. The constants (`'ZXYC'`, `AXES_ORDER`,
@@ -194,7 +197,120 @@ theorem swept_ends (p a b : Rat × Rat × Rat) (ra rb : Rat) :
   · simp [inSwept]
   · simp [inSwept]
 
+/-- triangle inequality in squared form for three coordinates (via Cauchy–Schwarz) -/
+theorem sq_triangle (u1 u2 u3 v1 v2 v3 R S : Rat) (hR : 0 ≤ R) (hS : 0 ≤ S)
+    (hu : u1 * u1 + u2 * u2 + u3 * u3 ≤ R * R) (hv : v1 * v1 + v2 * v2 + v3 * v3 ≤ S * S) :
+    (u1 + v1) * (u1 + v1) + (u2 + v2) * (u2 + v2) + (u3 + v3) * (u3 + v3) ≤ (R + S) * (R + S) := by
+  have hcs : (u1 * v1 + u2 * v2 + u3 * v3) ^ 2 ≤ (R * S) ^ 2 := by
+    have h1 : (u1 * v1 + u2 * v2 + u3 * v3) ^ 2
+        ≤ (u1 * u1 + u2 * u2 + u3 * u3) * (v1 * v1 + v2 * v2 + v3 * v3) := by
+      nlinarith [sq_nonneg (u1 * v2 - u2 * v1), sq_nonneg (u1 * v3 - u3 * v1), sq_nonneg (u2 * v3 - u3 * v2)]
+    have h2 : (u1 * u1 + u2 * u2 + u3 * u3) * (v1 * v1 + v2 * v2 + v3 * v3) ≤ (R * R) * (S * S) :=
+      mul_le_mul hu hv (add_nonneg (add_nonneg (mul_self_nonneg _) (mul_self_nonneg _)) (mul_self_nonneg _))
+        (mul_self_nonneg _)
+    calc (u1 * v1 + u2 * v2 + u3 * v3) ^ 2 ≤ _ := h1
+      _ ≤ _ := h2
+      _ = (R * S) ^ 2 := by ring
+  have hdot : u1 * v1 + u2 * v2 + u3 * v3 ≤ R * S := (abs_le_of_sq_le_sq' hcs (mul_nonneg hR hS)).2
+  nlinarith [hdot, hu, hv]
+
+/-- **an edge whose parent ball contains the child ball is exactly the parent ball**: when
+`|a - b| ≤ ra - rb`, every ball swept between the two ends lies inside the ball at `a` (so the union the
+property speaks of is that ball — the solid `_get_scene` adds for such an edge) -/
+theorem contained_swept_in_ball (p a b : Rat × Rat × Rat) (ra rb t : Rat) (hrb : 0 ≤ rb) (hr : rb ≤ ra)
+    (hc : edgeIsBall a b ra rb = true) (ht0 : 0 ≤ t) (ht1 : t ≤ 1) (h : inSwept p a b ra rb t = true) :
+    inBall p (a, ra) = true := by
+  obtain ⟨p1, p2, p3⟩ := p
+  obtain ⟨a1, a2, a3⟩ := a
+  obtain ⟨b1, b2, b3⟩ := b
+  simp only [inSwept, inBall, edgeIsBall, sqd, decide_eq_true_eq] at *
+  have hc := of_decide_eq_true hc
+  have hd : 0 ≤ ra - rb := by linarith
+  have hR : 0 ≤ ra + t * (rb - ra) := by
+    have : ra + t * (rb - ra) = (1 - t) * ra + t * rb := by ring
+    rw [this]
+    exact add_nonneg (mul_nonneg (by linarith) (by linarith)) (mul_nonneg ht0 hrb)
+  have hS : 0 ≤ t * (ra - rb) := mul_nonneg ht0 hd
+  have hv : (t * (b1 - a1)) * (t * (b1 - a1)) + (t * (b2 - a2)) * (t * (b2 - a2))
+      + (t * (b3 - a3)) * (t * (b3 - a3)) ≤ (t * (ra - rb)) * (t * (ra - rb)) := by
+    have := mul_le_mul_of_nonneg_left hc (mul_nonneg ht0 ht0)
+    calc _ = t * t * ((a1 - b1) * (a1 - b1) + (a2 - b2) * (a2 - b2) + (a3 - b3) * (a3 - b3)) := by ring
+      _ ≤ _ := this
+      _ = _ := by ring
+  have key := sq_triangle _ _ _ _ _ _ _ _ hR hS h hv
+  refine decide_eq_true ?_
+  calc _ = (p1 - (a1 + t * (b1 - a1)) + t * (b1 - a1)) * (p1 - (a1 + t * (b1 - a1)) + t * (b1 - a1))
+        + (p2 - (a2 + t * (b2 - a2)) + t * (b2 - a2)) * (p2 - (a2 + t * (b2 - a2)) + t * (b2 - a2))
+        + (p3 - (a3 + t * (b3 - a3)) + t * (b3 - a3)) * (p3 - (a3 + t * (b3 - a3)) + t * (b3 - a3)) := by ring
+    _ ≤ _ := key
+    _ = ra * ra := by ring
+
+/-- the mirror case: the child ball contains the parent ball -/
+theorem contained_swept_in_ball' (p a b : Rat × Rat × Rat) (ra rb t : Rat) (hra : 0 ≤ ra) (hr : ra ≤ rb)
+    (hc : edgeIsBall a b ra rb = true) (ht0 : 0 ≤ t) (ht1 : t ≤ 1) (h : inSwept p a b ra rb t = true) :
+    inBall p (b, rb) = true := by
+  obtain ⟨p1, p2, p3⟩ := p
+  obtain ⟨a1, a2, a3⟩ := a
+  obtain ⟨b1, b2, b3⟩ := b
+  simp only [inSwept, inBall, edgeIsBall, sqd, decide_eq_true_eq] at *
+  have hc := of_decide_eq_true hc
+  have hd : 0 ≤ rb - ra := by linarith
+  have hR : 0 ≤ ra + t * (rb - ra) := by
+    have : ra + t * (rb - ra) = (1 - t) * ra + t * rb := by ring
+    rw [this]
+    exact add_nonneg (mul_nonneg (by linarith) hra) (mul_nonneg ht0 (by linarith))
+  have hS : 0 ≤ (1 - t) * (rb - ra) := mul_nonneg (by linarith) hd
+  have hv : ((1 - t) * (a1 - b1)) * ((1 - t) * (a1 - b1)) + ((1 - t) * (a2 - b2)) * ((1 - t) * (a2 - b2))
+      + ((1 - t) * (a3 - b3)) * ((1 - t) * (a3 - b3)) ≤ ((1 - t) * (rb - ra)) * ((1 - t) * (rb - ra)) := by
+    have h1t : (0 : Rat) ≤ 1 - t := by linarith
+    have := mul_le_mul_of_nonneg_left hc (mul_nonneg h1t h1t)
+    calc _ = (1 - t) * (1 - t) * ((a1 - b1) * (a1 - b1) + (a2 - b2) * (a2 - b2) + (a3 - b3) * (a3 - b3)) := by ring
+      _ ≤ _ := this
+      _ = _ := by ring
+  have key := sq_triangle _ _ _ _ _ _ _ _ hR hS h hv
+  refine decide_eq_true ?_
+  calc _ = (p1 - (a1 + t * (b1 - a1)) + (1 - t) * (a1 - b1)) * (p1 - (a1 + t * (b1 - a1)) + (1 - t) * (a1 - b1))
+        + (p2 - (a2 + t * (b2 - a2)) + (1 - t) * (a2 - b2)) * (p2 - (a2 + t * (b2 - a2)) + (1 - t) * (a2 - b2))
+        + (p3 - (a3 + t * (b3 - a3)) + (1 - t) * (a3 - b3)) * (p3 - (a3 + t * (b3 - a3)) + (1 - t) * (a3 - b3)) := by ring
+    _ ≤ _ := key
+    _ = rb * rb := by ring
+
+/-- **the solid chosen for a degenerate edge is the union of its swept balls**: for non-negative radii, a
+point lies in some swept ball (`t ∈ [0, 1]`) iff it lies in `edgeBall` -/
+theorem degenerate_edge_is_ball (p a b : Rat × Rat × Rat) (ra rb : Rat) (hra : 0 ≤ ra) (hrb : 0 ≤ rb)
+    (hc : edgeIsBall a b ra rb = true) :
+    (∃ t, 0 ≤ t ∧ t ≤ 1 ∧ inSwept p a b ra rb t = true) ↔ inBall p (edgeBall a b ra rb) = true := by
+  by_cases hge : ra ≥ rb
+  · have hE : edgeBall a b ra rb = (a, ra) := by simp [edgeBall, hge]
+    rw [hE]
+    constructor
+    · rintro ⟨t, ht0, ht1, h⟩
+      exact contained_swept_in_ball p a b ra rb t hrb hge hc ht0 ht1 h
+    · intro h
+      refine ⟨0, le_rfl, zero_le_one, ?_⟩
+      rw [(swept_ends p a b ra rb).1]
+      simpa [inBall, sqd, decide_eq_true_eq] using of_decide_eq_true h
+  · have hlt : ra ≤ rb := le_of_lt (not_le.mp hge)
+    have hE : edgeBall a b ra rb = (b, rb) := by simp [edgeBall, hge]
+    rw [hE]
+    constructor
+    · rintro ⟨t, ht0, ht1, h⟩
+      exact contained_swept_in_ball' p a b ra rb t hra hlt hc ht0 ht1 h
+    · intro h
+      refine ⟨1, zero_le_one, le_rfl, ?_⟩
+      rw [(swept_ends p a b ra rb).2]
+      simpa [inBall, sqd, decide_eq_true_eq] using of_decide_eq_true h
+
+/-- two nodes at the same position always form a degenerate edge (the case in which the round-cone distance
+is not even defined) -/
+theorem coincident_is_ball (a : Rat × Rat × Rat) (ra rb : Rat) : edgeIsBall a a ra rb = true := by
+  simp only [edgeIsBall, sqd, decide_eq_true_eq, sub_self, mul_zero, add_zero]
+  exact mul_self_nonneg _
+
 -- non-vacuity / concrete behaviour
+example : edgeIsBall (0, 0, 0) (0, 1/3, -1/3) 1 (1/2) = true := by decide +kernel
+example : edgeIsBall (0, 0, 0) (0, 1/2, -1/2) 1 (1/2) = false := by decide +kernel
+example : edgeBall (0, 0, 0) (0, 1/3, -1/3) (1/2) 1 = ((0, 1/3, -1/3), 1) := by decide +kernel
 example : axisCentres (-2) 3 1 = [-3/2, -1/2, 1/2, 3/2, 5/2] := by decide +kernel
 example : axisCentres 0 2 (1/2) = [1/4, 3/4, 5/4, 7/4] := by decide +kernel
 example : Img.bbox [0, 1/3] [1, 1/2] = (-1, 1) := by decide +kernel
